@@ -417,10 +417,22 @@ def rule_KN(run: Run) -> RuleResult:
             for st in cls_.body if hasattr(cls_, "body") else []:
                 if isinstance(st, ast.AnnAssign) and isinstance(st.target, ast.Name) and st.target.id == e.attr:
                     ann = st.annotation
+                # … or the attribute is what __init__ stores from a parameter that is declared so (``self.source = source``)
+                if ann is None and isinstance(st, ast.FunctionDef) and st.name == "__init__":
+                    for as_ in ast.walk(st):
+                        if isinstance(as_, ast.Assign) and len(as_.targets) == 1 and isinstance(as_.targets[0], ast.Attribute) and as_.targets[0].attr == e.attr \
+                                and isinstance(as_.targets[0].value, ast.Name) and as_.targets[0].value.id == "self" and isinstance(as_.value, ast.Name):
+                            for a_ in st.args.posonlyargs + st.args.args + st.args.kwonlyargs:
+                                if a_.arg == as_.value.id and a_.annotation is not None:
+                                    ann = a_.annotation
         if ann is None:
             return False
         txt = ann.value if isinstance(ann, ast.Constant) and isinstance(ann.value, str) else ast.unparse(ann)
-        return txt.split("[")[0].split(".")[-1] in ("Evaluatable", "Cacheable", "Validatable", "Explainable")
+        base = txt.split("[")[0].split(".")[-1]
+        if base in ("Evaluatable", "Cacheable", "Validatable", "Explainable"):
+            return True
+        ci_ = next((c__ for c__ in repo.classes.values() if c__.name == base and not c__.module.name.startswith("labrea.mypy")), None)
+        return ci_ is not None and ci_.is_subclass_of("Evaluatable")        # declared as one of the library's expression classes
 
     for m, cls, fn, q in iter_functions(repo):
         if m.name.startswith("labrea.mypy"):
@@ -454,6 +466,8 @@ def rule_KN(run: Run) -> RuleResult:
                         txt = a_.annotation.value
                     if any(w in txt for w in ("KeyError", "KeyNotFoundError", "BaseException", "Exception")):
                         seeds.append(a_.arg)
+            if not seeds and fn.name == "__exit__" and len(fn.args.posonlyargs + fn.args.args) >= 3:
+                seeds.append((fn.args.posonlyargs + fn.args.args)[2].arg)        # the exception a context manager is leaving with
             if ok and cls is not None and cls.name == "Option" and not seeds:
                 ok = ast.unparse(a[0]) == "self.key"
             elif ok:
